@@ -181,12 +181,69 @@ def build_reference(root, package='csep'):
                 warnings.simplefilter('ignore')
                 tree = ast.parse(open(path, encoding='utf-8').read())
             funcs = {}
+            canonical_local(tree)
             for q, node, cls, parent in iter_functions(tree):
                 h, params, order = alpha_hash(node)
                 funcs[q] = {'hash': h, 'params': params, 'locals': order}
             funcs['__sha__'] = hashlib.sha1(open(path, 'rb').read()).hexdigest()
+            funcs['__consts__'] = sorted(module_names(tree))
             ref[rel.replace(os.sep, '/')] = funcs
     return ref
+
+
+def module_names(tree):
+    """names bound by assignments at module level"""
+    out = set()
+    for st in tree.body:
+        if isinstance(st, (ast.Assign, ast.AnnAssign, ast.AugAssign)):
+            for t in (st.targets if isinstance(st, ast.Assign) else [st.target]):
+                for n in ast.walk(t):
+                    if isinstance(n, ast.Name):
+                        out.add(n.id)
+    return out
+
+
+def _is_literal(e):
+    if isinstance(e, ast.Constant):
+        return True
+    if isinstance(e, ast.UnaryOp) and isinstance(e.op, (ast.USub, ast.UAdd)) and isinstance(e.operand, ast.Constant):
+        return True
+    if isinstance(e, ast.Tuple):
+        return all(_is_literal(x) for x in e.elts)
+    return False
+
+
+def inline_new_constants(tree, known):
+    """a module constant that the reference does not have (`_EPSILON = 1e-6` introduced for a magic number) is written back at
+    its uses: bound once, at module level, to a literal; never rebound; not shadowed where it is read"""
+    stores = {}
+    for n in ast.walk(tree):
+        if isinstance(n, ast.Name) and not isinstance(n.ctx, ast.Load):
+            stores[n.id] = stores.get(n.id, 0) + 1
+        elif isinstance(n, (ast.Global, ast.Nonlocal)):
+            for x in n.names:
+                stores[x] = stores.get(x, 0) + 2
+        elif isinstance(n, ast.arg):
+            stores[n.arg] = stores.get(n.arg, 0) + 2
+    consts = {}
+    for st in tree.body:
+        if isinstance(st, ast.Assign) and len(st.targets) == 1 and isinstance(st.targets[0], ast.Name) and _is_literal(st.value):
+            nm = st.targets[0].id
+            if nm not in known and stores.get(nm) == 1 and not (nm.startswith('__') and nm.endswith('__')):
+                consts[nm] = st.value
+    if not consts:
+        return []
+    used = set()
+
+    class T(ast.NodeTransformer):
+        def visit_Name(self, n):
+            if isinstance(n.ctx, ast.Load) and n.id in consts:
+                used.add(n.id)
+                return ast.copy_location(copy.deepcopy(consts[n.id]), n)
+            return n
+    T().visit(tree)
+    ast.fix_missing_locations(tree)
+    return sorted(used)
 
 
 def load_reference():
@@ -321,18 +378,23 @@ def _stored_names(stmts):
 
 def _bind(gnode, call, is_method):
     a = gnode.args
-    if a.vararg or a.kwarg or a.posonlyargs and False:
+    if a.vararg:
         raise NotInlineable('varargs')
     pos = [x.arg for x in a.posonlyargs + a.args]
     if is_method:
         pos = pos[1:]
-    if any(isinstance(x, ast.Starred) for x in call.args) or any(k.arg is None for k in call.keywords):
+    if any(isinstance(x, ast.Starred) for x in call.args):
+        raise NotInlineable('star arguments')
+    stars = [k for k in call.keywords if k.arg is None]
+    if stars and not (a.kwarg and len(stars) == 1 and isinstance(stars[0].value, ast.Name)):
         raise NotInlineable('star arguments')
     if len(call.args) > len(pos):
         raise NotInlineable('too many arguments')
     m = dict(zip(pos, call.args))
     kwonly = [x.arg for x in a.kwonlyargs]
     for k in call.keywords:
+        if k.arg is None:
+            continue
         if k.arg in m or k.arg not in pos + kwonly:
             raise NotInlineable('keyword mismatch')
         m[k.arg] = k.value
@@ -345,6 +407,9 @@ def _bind(gnode, call, is_method):
     need = set(pos + kwonly)
     if set(m) != need:
         raise NotInlineable('unbound parameter')
+    if a.kwarg:
+        # f(**kwargs) handed on as helper(**kwargs): the helper's dictionary is the caller's; without one it is empty
+        m[a.kwarg.arg] = stars[0].value if stars else ast.Dict(keys=[], values=[])
     return m
 
 
@@ -388,6 +453,21 @@ def splice(gnode, call, target_kind, target, caller_locals, is_method=False):
     def make_result(value):
         v = value if value is not None else ast.Constant(value=None)
         if target_kind == 'assign':
+            # `a, b = helper()` returning the display `(x, y)`: bind component-wise when no target is read by another component
+            if isinstance(target, ast.Tuple) and isinstance(v, ast.Tuple) and len(target.elts) == len(v.elts) \
+                    and all(isinstance(t_, ast.Name) for t_ in target.elts):
+                tnames = [t_.id for t_ in target.elts]
+                safe = all(not any(isinstance(n_, ast.Name) and n_.id in tnames and n_.id != tnames[k_] for n_ in ast.walk(e_))
+                           for k_, e_ in enumerate(v.elts))
+                if safe:
+                    outs = []
+                    for t_, e_ in zip(target.elts, v.elts):
+                        if isinstance(e_, ast.Name) and e_.id == t_.id:
+                            continue
+                        outs.append(ast.Assign(targets=[ast.Name(id=t_.id, ctx=ast.Store())], value=e_, lineno=getattr(v, 'lineno', call.lineno), col_offset=0))
+                    if outs:
+                        outs[-1]._result = True
+                        return outs
             st = ast.Assign(targets=[copy.deepcopy(target)], value=v, lineno=getattr(v, 'lineno', call.lineno), col_offset=0)
             st._result = True
             return [st]
@@ -632,25 +712,34 @@ def hoist_nested_calls(fnode, is_new_callee):
             if rep is not None:
                 blk[i:i + 1] = rep
                 continue
-            # the expression evaluated once when the statement is reached
-            slot = None
+            # the expressions evaluated once when the statement is reached: (holder, field or index)
+            slots = []
             if isinstance(s, (ast.Assign, ast.AugAssign, ast.Return, ast.Expr, ast.AnnAssign)) and getattr(s, 'value', None) is not None:
-                slot = 'value'
+                slots.append((s, 'value', True))
+            if isinstance(s, ast.Assign):
+                for t_ in s.targets:
+                    for sub_ in ast.walk(t_):
+                        if isinstance(sub_, ast.Subscript):
+                            slots.append((sub_, 'slice', False))
+            elif isinstance(s, ast.AugAssign):
+                for sub_ in ast.walk(s.target):
+                    if isinstance(sub_, ast.Subscript):
+                        slots.append((sub_, 'slice', False))
             elif isinstance(s, ast.For):
-                slot = 'iter'
+                slots.append((s, 'iter', False))
             elif isinstance(s, ast.If):
-                slot = 'test'
-            if slot is not None:
-                top = getattr(s, slot)
-                if slot != 'value' and isinstance(top, ast.Call) and is_new_callee(top) and not _conditional_in(top, top):
+                slots.append((s, 'test', False))
+            for holder, slot, is_value in slots:
+                top = getattr(holder, slot)
+                if not is_value and isinstance(top, ast.Call) and is_new_callee(top) and not _conditional_in(top, top):
                     counter[0] += 1
                     nm0 = '_h%d_%s' % (counter[0], (top.func.id if isinstance(top.func, ast.Name) else top.func.attr).strip('_'))
                     st0 = ast.copy_location(ast.Assign(targets=[ast.Name(id=nm0, ctx=ast.Store())], value=top), s)
                     ast.fix_missing_locations(st0)
-                    setattr(s, slot, ast.copy_location(ast.Name(id=nm0, ctx=ast.Load()), top))
+                    setattr(holder, slot, ast.copy_location(ast.Name(id=nm0, ctx=ast.Load()), top))
                     blk[i:i] = [st0]
                     i += 1
-                    top = getattr(s, slot)
+                    top = getattr(holder, slot)
                 pre = []
                 for n in list(ast.walk(top)):
                     if n is top or not isinstance(n, ast.Call) or not is_new_callee(n):
@@ -673,7 +762,7 @@ def hoist_nested_calls(fnode, is_new_callee):
                                 return ast.copy_location(ast.Name(id=repl[id(c)], ctx=ast.Load()), c)
                             self.generic_visit(c)
                             return c
-                    setattr(s, slot, R().visit(getattr(s, slot)))
+                    setattr(holder, slot, R().visit(getattr(holder, slot)))
                     for st in new_stmts:
                         ast.fix_missing_locations(st)
                     blk[i:i] = new_stmts
@@ -714,6 +803,46 @@ def _conditional_in(top, node):
         return None
     r = rec(top, False)
     return bool(r)
+
+
+def _remove_dead_helpers(tree, new):
+    """a new helper all of whose call sites were spliced (no reference to its name is left in the module) is dropped, so that
+    no rule looks at its body out of context"""
+    removed = []
+    for q, (g, gcls, gparent) in list(new.items()):
+        refs = 0
+        for n in ast.walk(tree):
+            if n is g:
+                continue
+            if isinstance(n, ast.Name) and n.id == g.name and isinstance(n.ctx, ast.Load):
+                refs += 1
+            elif isinstance(n, ast.Attribute) and n.attr == g.name and isinstance(n.ctx, ast.Load):
+                refs += 1
+            elif isinstance(n, ast.Constant) and isinstance(n.value, str) and n.value == g.name:
+                refs += 1
+        # references from inside the helper itself do not count
+        inner = sum(1 for n in ast.walk(g) if (isinstance(n, ast.Name) and n.id == g.name) or (isinstance(n, ast.Attribute) and n.attr == g.name))
+        if refs - inner > 0:
+            continue
+        holder = gparent if gparent is not None else (gcls if gcls is not None else tree)
+
+        def drop(blk):
+            for i, st in enumerate(blk):
+                if st is g:
+                    del blk[i]
+                    if not blk:
+                        blk.append(ast.Pass())
+                    return True
+                for field in ('body', 'orelse', 'finalbody'):
+                    sub = getattr(st, field, None)
+                    if isinstance(sub, list) and sub and isinstance(sub[0], ast.stmt) and not isinstance(st, (ast.FunctionDef, ast.AsyncFunctionDef, ast.ClassDef)):
+                        if drop(sub):
+                            return True
+            return False
+        if drop(holder.body):
+            removed.append(q)
+            del new[q]
+    return removed
 
 
 def _defs_to_lambdas(tree, new):
@@ -831,6 +960,269 @@ def unroll_constant_loops(tree):
     return n_done[0]
 
 
+def unroll_constant_comprehensions(tree):
+    """`[f(c) for c in (a, b, c)]` (the sequence a display of at most 8 elements, directly or through a local bound once to one;
+    also `zip` of such displays) -> the display `[f(a), f(b), f(c)]`"""
+    n_done = [0]
+    mcount, mconst = {}, {}
+    for st in tree.body:
+        for n in ast.walk(st) if not isinstance(st, (ast.FunctionDef, ast.AsyncFunctionDef, ast.ClassDef)) else []:
+            if isinstance(n, ast.Name) and isinstance(n.ctx, ast.Store):
+                mcount[n.id] = mcount.get(n.id, 0) + 1
+        if isinstance(st, ast.Assign) and len(st.targets) == 1 and isinstance(st.targets[0], ast.Name) and isinstance(st.value, (ast.Tuple, ast.List)) \
+                and all(isinstance(e, ast.Constant) for e in st.value.elts):
+            mconst[st.targets[0].id] = st.value
+    mconst = {k: v for k, v in mconst.items() if mcount.get(k) == 1}
+
+    def displays(fnode):
+        cnt, val = {}, {}
+        for n in _walk_scope_stmt(fnode):
+            if isinstance(n, ast.Name) and isinstance(n.ctx, ast.Store):
+                cnt[n.id] = cnt.get(n.id, 0) + 1
+            if isinstance(n, ast.Assign) and len(n.targets) == 1 and isinstance(n.targets[0], ast.Name) and isinstance(n.value, (ast.Tuple, ast.List)):
+                val[n.targets[0].id] = n.value
+        prm = {a.arg for a in fnode.args.posonlyargs + fnode.args.args + fnode.args.kwonlyargs}
+        out = {k: v for k, v in mconst.items() if k not in cnt and k not in prm}
+        out.update({k: v for k, v in val.items() if cnt.get(k) == 1})
+        return out
+
+    def seq_of(it, disp):
+        if isinstance(it, ast.Name) and it.id in disp:
+            it = disp[it.id]
+        if isinstance(it, (ast.Tuple, ast.List)) and 1 <= len(it.elts) <= 16 and not any(isinstance(e, ast.Starred) for e in it.elts):
+            return [[e] for e in it.elts]
+        if isinstance(it, ast.Call) and isinstance(it.func, ast.Name) and it.func.id == 'zip' and it.args and not it.keywords:
+            parts = [seq_of(a, disp) for a in it.args]
+            if all(p_ is not None for p_ in parts) and len({len(p_) for p_ in parts}) == 1:
+                return [[x for p_ in parts for x in p_[k]] for k in range(len(parts[0]))]
+        return None
+
+    for fnode in [n for n in ast.walk(tree) if isinstance(n, (ast.FunctionDef, ast.AsyncFunctionDef))]:
+        for _round in range(3):
+            disp = displays(fnode)
+            changed = [False]
+
+            class T(ast.NodeTransformer):
+                def visit_FunctionDef(self, n):
+                    if n is fnode:
+                        self.generic_visit(n)
+                    return n
+
+                def visit_ListComp(self, c):
+                    self.generic_visit(c)
+                    if len(c.generators) != 1 or c.generators[0].ifs or c.generators[0].is_async:
+                        return c
+                    g = c.generators[0]
+                    rows = seq_of(g.iter, disp)
+                    if rows is None:
+                        return c
+                    tgts = [g.target] if isinstance(g.target, ast.Name) else (list(g.target.elts) if isinstance(g.target, ast.Tuple) else None)
+                    if tgts is None or not all(isinstance(t_, ast.Name) for t_ in tgts) or any(len(r_) != len(tgts) for r_ in rows):
+                        return c
+                    elts = []
+                    for r_ in rows:
+                        m = {t_.id: e_ for t_, e_ in zip(tgts, r_)}
+
+                        class S(ast.NodeTransformer):
+                            def visit_Name(self, n):
+                                if n.id in m and isinstance(n.ctx, ast.Load):
+                                    return ast.copy_location(copy.deepcopy(m[n.id]), n)
+                                return n
+                        elts.append(S().visit(copy.deepcopy(c.elt)))
+                    changed[0] = True
+                    n_done[0] += 1
+                    return ast.copy_location(ast.List(elts=elts, ctx=ast.Load()), c)
+
+                def visit_DictComp(self, c):
+                    self.generic_visit(c)
+                    if len(c.generators) != 1 or c.generators[0].ifs or c.generators[0].is_async:
+                        return c
+                    g = c.generators[0]
+                    rows = seq_of(g.iter, disp)
+                    if rows is None:
+                        return c
+                    tgts = [g.target] if isinstance(g.target, ast.Name) else (list(g.target.elts) if isinstance(g.target, ast.Tuple) else None)
+                    if tgts is None or not all(isinstance(t_, ast.Name) for t_ in tgts) or any(len(r_) != len(tgts) for r_ in rows):
+                        return c
+                    keys, vals = [], []
+                    for r_ in rows:
+                        m = {t_.id: e_ for t_, e_ in zip(tgts, r_)}
+
+                        class S(ast.NodeTransformer):
+                            def visit_Name(self, n):
+                                if n.id in m and isinstance(n.ctx, ast.Load):
+                                    return ast.copy_location(copy.deepcopy(m[n.id]), n)
+                                return n
+                        keys.append(S().visit(copy.deepcopy(c.key)))
+                        vals.append(S().visit(copy.deepcopy(c.value)))
+                    changed[0] = True
+                    n_done[0] += 1
+                    return ast.copy_location(ast.Dict(keys=keys, values=vals), c)
+            fnode.body = [T().visit(st) for st in fnode.body]
+            if not changed[0]:
+                break
+    return n_done[0]
+
+
+def dict_displays(tree):
+    """`d = {}; d['a'] = x; d['b'] = y; return d` -> `d__a = x; d__b = y; return {'a': d__a, 'b': d__b}`: a dict filled key by
+    key in straight-line code and then returned is its display.  Only when `d` is bound once, every other use is `d['const']`
+    (stores at the top level of the function) or the returned value, and no nested scope sees it."""
+    n_done = 0
+    for fnode in [n for n in ast.walk(tree) if isinstance(n, (ast.FunctionDef, ast.AsyncFunctionDef))]:
+        body = fnode.body
+        cands = [st for st in body if isinstance(st, ast.Assign) and len(st.targets) == 1 and isinstance(st.targets[0], ast.Name)
+                 and isinstance(st.value, ast.Dict) and all(isinstance(k, ast.Constant) and isinstance(k.value, str) and k.value.isidentifier()
+                                                            for k in st.value.keys)]
+        if not cands:
+            continue
+        parent = {}
+        for n in ast.walk(fnode):
+            for c in ast.iter_child_nodes(n):
+                parent[id(c)] = n
+        locals_ = _stored_names(body) | {a.arg for a in fnode.args.posonlyargs + fnode.args.args + fnode.args.kwonlyargs}
+        for init in cands:
+            d = init.targets[0].id
+            occ_all = [n for n in ast.walk(fnode) if isinstance(n, ast.Name) and n.id == d]
+            occ_scope = [n for n in _walk_scope_stmt(fnode) if isinstance(n, ast.Name) and n.id == d]
+            if len(occ_all) != len(occ_scope) or sum(1 for n in occ_all if not isinstance(n.ctx, ast.Load)) != 1:
+                continue
+            stores, reads, finals, good = [], [], [], True
+            for n in occ_all:
+                if n is init.targets[0]:
+                    continue
+                p_ = parent.get(id(n))
+                if isinstance(p_, ast.Subscript) and p_.value is n and isinstance(p_.slice, ast.Constant) and isinstance(p_.slice.value, str) \
+                        and p_.slice.value.isidentifier():
+                    gp = parent.get(id(p_))
+                    if isinstance(p_.ctx, ast.Store):
+                        if isinstance(gp, ast.Assign) and len(gp.targets) == 1 and gp.targets[0] is p_ and any(gp is b for b in body):
+                            stores.append(gp)
+                        else:
+                            good = False
+                    elif isinstance(p_.ctx, ast.Load):
+                        reads.append(p_)
+                    else:
+                        good = False
+                elif isinstance(p_, ast.Return) and p_.value is n and any(p_ is b for b in body):
+                    finals.append(p_)
+                else:
+                    good = False
+            if not good or not stores or not finals:
+                continue
+            keys = [k.value for k in init.value.keys] + [st.targets[0].slice.value for st in stores]
+            if any((d + '__' + k) in locals_ for k in keys):
+                continue
+            pos = {id(b): i for i, b in enumerate(body)}
+            if any(pos[id(st)] < pos[id(init)] for st in stores):
+                continue
+
+            def tmp(k, ctx):
+                return ast.Name(id=d + '__' + k, ctx=ctx)
+            new_body = []
+            for b in body:
+                if b is init:
+                    for k, v in zip(init.value.keys, init.value.values):
+                        new_body.append(ast.copy_location(ast.Assign(targets=[tmp(k.value, ast.Store())], value=v), init))
+                elif any(b is st for st in stores):
+                    new_body.append(ast.copy_location(ast.Assign(targets=[tmp(b.targets[0].slice.value, ast.Store())], value=b.value), b))
+                elif any(b is r for r in finals):
+                    seen = []
+                    for k in [k.value for k in init.value.keys] + [st.targets[0].slice.value for st in stores if pos[id(st)] < pos[id(b)]]:
+                        if k not in seen:
+                            seen.append(k)
+                    b.value = ast.copy_location(ast.Dict(keys=[ast.Constant(k) for k in seen], values=[tmp(k, ast.Load()) for k in seen]), b)
+                    new_body.append(b)
+                else:
+                    new_body.append(b)
+            fnode.body = new_body
+            rd = {id(r): r for r in reads}
+
+            class R(ast.NodeTransformer):
+                def visit_Subscript(self, n):
+                    if id(n) in rd:
+                        return ast.copy_location(tmp(n.slice.value, ast.Load()), n)
+                    self.generic_visit(n)
+                    return n
+            fnode.body = [R().visit(b) for b in fnode.body]
+            ast.fix_missing_locations(fnode)
+            n_done += 1
+            break           # parent links are stale now; one dict per function is the idiom
+    return n_done
+
+
+def canonical_local(tree):
+    """function-local canonical forms that do not need the reference: comprehensions and loops over small constant sequences are
+    written out.  Applied to the reference tree before it is fingerprinted and to the analysed tree before it is compared."""
+    return dict_displays(tree) + unroll_constant_comprehensions(tree) + unroll_constant_loops(tree)
+
+
+def inline_expression_helpers(tree, new):
+    """a new helper whose body is a single `return E` is substituted at its call sites wherever they stand (conditions,
+    comprehensions, arguments), provided each argument is a plain name / constant / attribute / subscript of those"""
+    def simple(e):
+        if isinstance(e, (ast.Name, ast.Constant)):
+            return True
+        if isinstance(e, ast.Attribute):
+            return simple(e.value)
+        if isinstance(e, ast.Subscript):
+            return simple(e.value) and (isinstance(e.slice, (ast.Constant, ast.Name)))
+        return False
+    cands = {}
+    for q, (g, gcls, gparent) in new.items():
+        body = _strip_docstring(g.body)
+        if len(body) == 1 and isinstance(body[0], ast.Return) and body[0].value is not None and not g.decorator_list \
+                and not g.args.vararg and not g.args.kwarg and not any(isinstance(n, ast.Call) and isinstance(n.func, ast.Name) and n.func.id == g.name
+                                                                     for n in ast.walk(body[0].value)):
+            cands.setdefault(g.name, []).append((g, gcls, gparent))
+    # a name defined more than once (nested helpers of different functions) is resolved by scope: keep only unambiguous ones
+    cands = {k: (v[0][0], v[0][1], v[0][2]) for k, v in cands.items() if len(v) == 1}
+    if not cands:
+        return 0
+    n_done = [0]
+
+    class T(ast.NodeTransformer):
+        def __init__(self):
+            self.stack = []
+
+        def visit_FunctionDef(self, n):
+            self.stack.append(n)
+            self.generic_visit(n)
+            self.stack.pop()
+            return n
+
+        def visit_Call(self, c):
+            self.generic_visit(c)
+            f = c.func
+            nm, is_method = None, False
+            if isinstance(f, ast.Name) and f.id in cands and cands[f.id][1] is None \
+                    and (cands[f.id][2] is None or cands[f.id][2] in self.stack):
+                nm = f.id
+            elif isinstance(f, ast.Attribute) and isinstance(f.value, ast.Name) and f.value.id in ('self', 'cls') and f.attr in cands \
+                    and cands[f.attr][1] is not None:
+                nm, is_method = f.attr, not any(isinstance(d, ast.Name) and d.id == 'staticmethod' for d in cands[f.attr][0].decorator_list)
+            if nm is None:
+                return c
+            g = cands[nm][0]
+            try:
+                m = _bind(g, c, is_method)
+            except NotInlineable:
+                return c
+            if not all(simple(a) for a in m.values()):
+                return c
+
+            class S(ast.NodeTransformer):
+                def visit_Name(self, n):
+                    if n.id in m and isinstance(n.ctx, ast.Load):
+                        return ast.copy_location(copy.deepcopy(m[n.id]), n)
+                    return n
+            n_done[0] += 1
+            return ast.copy_location(S().visit(copy.deepcopy(_strip_docstring(g.body)[0].value)), c)
+    for st in tree.body:
+        T().visit(st)
+    return n_done[0]
+
+
 # ------------------------------------------------------------------------------------------------ driver
 def apply(prog):
     """mutate the module trees of `prog`; fills prog.alias (new qualified name -> reference qualified name) and
@@ -849,8 +1241,15 @@ def apply(prog):
         if rfuncs is None:
             continue
         if rfuncs.get('__sha__') == hashlib.sha1(m.src.encode('utf-8')).hexdigest():
+            canonical_local(m.tree)          # the same local canonical forms whether or not the module changed
             continue            # the module is byte-identical to the reference
-        rfuncs = {k: v for k, v in rfuncs.items() if k != '__sha__'}
+        known_consts = rfuncs.get('__consts__')
+        rfuncs = {k: v for k, v in rfuncs.items() if not k.startswith('__')}
+        if known_consts is not None:
+            done = inline_new_constants(m.tree, set(known_consts))
+            if done:
+                prog.normalization.setdefault('constants_inlined', {})[m.name] = done
+        canonical_local(m.tree)
         funcs = iter_functions(m.tree)
         present = {q: (n, c, p) for q, n, c, p in funcs}
         vanished = [q for q in rfuncs if q not in present]
@@ -914,6 +1313,12 @@ def apply(prog):
                     inl.run_function(n, c, chain)
                 if inl.count == before:
                     break
+            n_expr = inline_expression_helpers(m.tree, new)
+            if n_expr:
+                prog.normalization.setdefault('expression_helpers', {})[m.name] = n_expr
+            n_removed = _remove_dead_helpers(m.tree, new)
+            if n_removed:
+                prog.normalization.setdefault('helpers_removed', {})[m.name] = n_removed
             n_lambda = _defs_to_lambdas(m.tree, new)
             if n_lambda:
                 prog.normalization.setdefault('defs_to_lambdas', {})[m.name] = n_lambda
@@ -921,6 +1326,9 @@ def apply(prog):
                 prog.normalization['inlined'][m.name] = {'helpers': sorted(new), 'call_sites': inl.count}
             if inl.failed:
                 prog.normalization['not_inlined'][m.name] = inl.failed
+        n_comp = unroll_constant_comprehensions(m.tree)
+        if n_comp:
+            prog.normalization.setdefault('comprehensions_unrolled', {})[m.name] = n_comp
         n_unrolled = unroll_constant_loops(m.tree)
         if n_unrolled:
             prog.normalization.setdefault('loops_unrolled', {})[m.name] = n_unrolled
@@ -944,6 +1352,25 @@ class _Spelling(ast.NodeTransformer):
 
     def visit_Call(self, n):
         self.generic_visit(n)
+        # f(**{'a': x, 'b': y}) is f(a=x, b=y)
+        if any(k.arg is None and isinstance(k.value, ast.Dict) and k.value.keys and all(
+                isinstance(kk, ast.Constant) and isinstance(kk.value, str) and kk.value.isidentifier() for kk in k.value.keys) for k in n.keywords):
+            kws = []
+            for k in n.keywords:
+                if k.arg is None and isinstance(k.value, ast.Dict) and k.value.keys and all(
+                        isinstance(kk, ast.Constant) and isinstance(kk.value, str) and kk.value.isidentifier() for kk in k.value.keys):
+                    kws.extend(ast.keyword(arg=kk.value, value=vv) for kk, vv in zip(k.value.keys, k.value.values))
+                    self.count += 1
+                else:
+                    kws.append(k)
+            if len({k.arg for k in kws if k.arg}) == len([k for k in kws if k.arg]):
+                n.keywords = kws
+        # sum(x for ...) consumes its generator completely: the same as sum([x for ...])
+        if isinstance(n.func, ast.Name) and n.func.id in ('sum', 'min', 'max', 'any', 'all', 'list', 'tuple', 'sorted', 'set') \
+                and len(n.args) >= 1 and isinstance(n.args[0], ast.GeneratorExp):
+            g = n.args[0]
+            n.args[0] = ast.copy_location(ast.ListComp(elt=g.elt, generators=g.generators), g)
+            self.count += 1
         if self.np and isinstance(n.func, ast.Attribute) and n.func.attr in ('any', 'all') and not n.args and not n.keywords \
                 and isinstance(n.func.value, (ast.Compare, ast.BoolOp, ast.BinOp, ast.UnaryOp)):
             self.count += 1
